@@ -204,6 +204,20 @@ HslBits(rgb, hsl) ==
       l2 == FxAdd(mx, mn)                                       \* 2 L
       span == FxSub(FxOne, FxAbs(FxSub(FxMulInt(hsl[3], 2), FxOne)))   \* 1 - |2L - 1|
   IN Min3i(HueBits(rgb, hsl[1]), AgreeBits(FxMul(hsl[2], span), d, AtLeast(FxOne, 1)), AgreeBits(FxMulInt(hsl[3], 2), l2, AtLeast(FxOne, 1)))
+(* The hexcone the other way round: the RGB triple of maximum M, minimum m and hue h (degrees); used to judge the direct
+   conversions between hexcone colours of two RGB standards, which must be what going through the two RGB colours gives *)
+HexRgb(M, m, h) ==
+  LET h6 == FxDivInt(FxMod360(h), 60)                               \* [0, 6)
+      k == IF Len(h6[2]) <= FL THEN 0 ELSE h6[2][FL + 1]             \* its integer part: the sector
+      fr == FxSub(h6, FxInt(k))
+      d == FxSub(M, m)
+      up == FxAdd(m, FxMul(d, fr))
+      dn == FxAdd(m, FxMul(d, FxSub(FxOne, fr)))
+  IN CASE k = 0 -> <<M, up, m>> [] k = 1 -> <<dn, M, m>> [] k = 2 -> <<m, M, up>>
+       [] k = 3 -> <<m, dn, M>> [] k = 4 -> <<up, m, M>> [] OTHER -> <<M, m, dn>>
+HsvRgb(hsv) == HexRgb(hsv[3], FxMul(hsv[3], FxSub(FxOne, hsv[2])), hsv[1])
+HslRgb(hsl) == LET c2 == FxHalf(FxMul(FxSub(FxOne, FxAbs(FxSub(FxMulInt(hsl[3], 2), FxOne))), hsl[2]))
+               IN HexRgb(FxAdd(hsl[3], c2), FxSub(hsl[3], c2), hsl[1])
 (* W = (1 - S) V, B = 1 - V, hue identical *)
 HwbFromHsvBits(hsv, hwb) ==
   Min3i(AgreeBits(FxMod360(hwb[1]), FxMod360(hsv[1]), Fx360T),
